@@ -46,12 +46,17 @@ def rule_records(ctx, nprog, depth, thin=1):
     prec = V.tlc_generate(ctx, "precasp", 220 if q else 864, depth, {"GEN_STRIDE": 47 if q else 1})
     exp = {c["id"]: c["exp"] for c in prec}
     cases += [{"id": c["id"], "prog": c["prog"]} for c in prec]
+    prul = V.tlc_generate(ctx, "precrule", 180 if q else 1152, depth, {"GEN_STRIDE": 53 if q else 1})
+    exprule = {c["id"]: c["exprule"] for c in prul}
+    cases += [{"id": c["id"], "prog": c["prog"]} for c in prul]
     recs = V.run_harness(ctx, "translate", cases)
     for r in recs:
         base = r["id"].rsplit(".", 1)[0]
         if base in exp and r["kind"] == "rule":
             r["exp"] = exp[base]
-        elif base in exp and r["kind"] in ("reject", "panic"):
+        elif base in exprule and r["kind"] == "rule":
+            r["exprule"] = exprule[base]
+        elif (base in exp or base in exprule) and r["kind"] in ("reject", "panic"):
             r["reference_text"] = True
     return cases, recs
 
@@ -87,7 +92,7 @@ def check_rules(ctx, prefix, nprog_q, nprog_t, thin=1):
     usable, skipped = [], {}
     seen = set()
     for r in rules:
-        key = json.dumps(r["rule"], sort_keys=True)
+        key = json.dumps(r["rule"], sort_keys=True) + (r.get("text", "") if ("exp" in r or "exprule" in r) else "")   # spellings of one tree are all judged
         if key in seen:
             continue
         seen.add(key)
